@@ -151,6 +151,8 @@ func c02RegexVerdict(want string, cfgs []c02Cfg, outs []string) string {
 //   reference is an error         → every probe gives that very error (same text) or ErrorFunctionNotFound naming
 //                                   `.N()` — also for a syntax error: the actions of the recognised prefix run before
 //                                   the action that reports it, so a call of N inside the prefix is reported first
+// In 60% of the histories the very first call is Parse(s, with) as well: the reference, made right after a probe that
+// was rejected, must repeat its outcome (error text / tree).
 // Additionally the grammar executed in Lean is asked (it resolves names against the registry): the reference when
 // `with` is exactly the registry, the config-less probe when N is not a registry name.
 
@@ -239,6 +241,14 @@ func c17HistoryCase(r *Rng) Record {
 		hist = append(hist, call+" -> "+pick(f != nil, "function", clip(o.ErrKind+" "+o.Msg, 160)).(string))
 		rec.Info["history"] = hist
 	}
+	// 0. (60%) the path itself under `with`, first: the reference at the end must repeat this outcome
+	var first0 Parsed
+	var first0Out Outcome
+	first0Tree, haveFirst0 := "", r.Chance(60)
+	if haveFirst0 {
+		first0, first0Out, first0Tree = ParseTree(s, &with)
+		note(fmt.Sprintf("Parse(%q, with)", s), first0, first0Out)
+	}
 	// 1. calls under `with`
 	firsts := []string{s, s, fill(r.Pick(c17HistTemplates[:16])), "$.a", "$[?(@.a == 1)]", fill("$.a.%N()["), fill("$.a.%N()[?(@.b =~ /(/)]"), fill("$.a.%N().nope()")}
 	for k, n := 0, r.Range(1, 3); k < n; k++ {
@@ -295,6 +305,11 @@ func c17HistoryCase(r *Rng) Record {
 			rec.Viol = fmt.Sprintf(format, args...) + fmt.Sprintf(" [path %q, function `%s` registered in `with` = %s; history: %s]", s, name, withName, strings.Join(hist, " ; "))
 			rec.Class = "registry-history"
 		}
+	}
+	if haveFirst0 && ((first0 != nil) != (ref != nil) || first0Out.ErrKind != refOut.ErrKind || first0Out.Msg != refOut.Msg || first0Tree != refTree) {
+		viol("the last Parse under the Config that registers the function gives %s, the first Parse of the same path under the same Config gave %s",
+			pick(ref != nil, "a function", clip(refOut.Detail(), 200)), pick(first0 != nil, "a function (or another tree)", clip(first0Out.Detail(), 200)))
+		return rec
 	}
 	if ref == nil && !c02IsParseErr(refOut.ErrKind) {
 		viol("the reference Parse under the Config that registers the function: %s", clip(refOut.Detail(), 300))
@@ -596,5 +611,121 @@ func c01SecondCallWideCase(r *Rng) Record {
 		rec.Info = map[string]interface{}{}
 	}
 	rec.Info["renamed_in_place_after_the_first_call"] = renamed
+	return rec
+}
+
+// ---------- C17 class same-string-history ----------
+//
+// One case in 50 (beyond the enumerated slice). What Parse answers for a (string, Config) does not depend on what was
+// parsed before — in particular not on an earlier Parse of the SAME string or of a string sharing a token with it.
+// The same string is parsed 2..3 times in a row under one Config (sometimes another path with the same regex text, or
+// an unrelated short path, in between); every outcome must be identical (accepted or not, error type and text), and must
+// be what the construction says:
+//   regex         a path from the regex-syntax pool of C02 (b14): accepted iff regexp.Compile accepts the delimited
+//                 pattern, ErrorInvalidArgument otherwise
+//   long          `$` + 700..1400 plain steps (2.5..6 KB, more than 4096 parser tokens), alone (accepted) or with a
+//                 part that fails in an ACTION after the whole text was recognised — an unknown function at the end
+//                 (ErrorFunctionNotFound), a filter with an invalid regex in the middle or at the end
+//                 (ErrorInvalidArgument), a script (ErrorNotSupported)
+// The grammar models are not asked (patterns with metacharacters and texts of this length are outside what they model).
+
+func c17SameStringCase(r *Rng) Record {
+	acc := r.Chance(25)
+	cfg := ConfigNoDecoys(acc)
+	var s, kind, want, between string
+	if r.Chance(55) {
+		s, _, want = c02GenRegex(r)
+		kind = "regex"
+		if at := strings.Index(s, "=~"); at >= 0 && r.Chance(50) {
+			if open := strings.Index(s[at:], "/"); open >= 0 {
+				if pat, _, ok := c02DelimitRegex(s[at+open+1:]); ok {
+					between = "$.zz[?(@.q =~ /" + pat + "/)].r" // another path with the same regex text
+				}
+			}
+		}
+	} else {
+		kind = "long"
+		segs := []string{".abc", "[0]", "['k']", "[*]", ".x", "[1:2]", "[\"q\"]", ".*"}
+		var b strings.Builder
+		b.WriteString("$")
+		n := r.Range(700, 1400)
+		failAt := -1
+		tail := ""
+		switch r.Weighted([]int{25, 25, 15, 20, 15}) {
+		case 0:
+			want = "ok"
+		case 1:
+			tail, want = r.Pick([]string{".nope()", ".Twice()", ".twice().nope()"}), "notfound"
+		case 2:
+			tail, want = "[?(@.a =~ /(/)]", "argument"
+		case 3:
+			failAt, want = r.Intn(n), "argument"
+		case 4:
+			failAt, want = r.Intn(n), "notsupported"
+		}
+		for k := 0; k < n; k++ {
+			if k == failAt {
+				b.WriteString(pick(want == "argument", "[?(@.a =~ /a{3,2}/)]", "[(@.length-1)]").(string))
+			}
+			b.WriteString(segs[r.Intn(len(segs))])
+		}
+		s = b.String() + tail
+	}
+	if between == "" && r.Chance(25) {
+		between = r.Pick([]string{"$.a", "$[", "$.a.nope()", "$[?(@.a =~ /x/)]"})
+	}
+	rec := Record{Text: s, Tags: []string{"gen:same-string-history", "class:same-string-history", "same-string-history:" + kind}, Info: map[string]interface{}{}}
+	var hist []string
+	type res struct {
+		f Parsed
+		o Outcome
+	}
+	var got []res
+	show := func(f Parsed, o Outcome) string {
+		return pick(f != nil, "a function", clip(o.ErrKind+" "+o.Msg, 160)).(string)
+	}
+	reps := r.Range(2, 3)
+	for k := 0; k < reps; k++ {
+		// (without the tree hook: a tree that cannot be dumped must not hide the outcome)
+		f, o := SafeParse(s, &cfg)
+		got = append(got, res{f, o})
+		hist = append(hist, fmt.Sprintf("Parse #%d of the path -> %s", k+1, show(f, o)))
+		if between != "" && k == 0 && (kind == "regex" || reps == 3) {
+			// (a long rejected path is parsed twice IN A ROW at least once: with three repetitions the pair 2,3)
+			bf, bo := SafeParse(between, &cfg)
+			hist = append(hist, fmt.Sprintf("Parse(%q) -> %s", between, show(bf, bo)))
+			if kind == "regex" && want != "" && strings.HasPrefix(between, "$.zz") {
+				bk := pick(bf != nil, "ok", bo.ErrKind).(string)
+				if bk != want && rec.Viol == "" {
+					rec.Viol = fmt.Sprintf("%q has the regex text of the path parsed before it: Go's regexp.Compile %s it, Parse gives %s [history: %s]", between,
+						pick(want == "ok", "accepts", "rejects"), show(bf, bo), strings.Join(hist, " ; "))
+					rec.Class = "same-string-history"
+				}
+			}
+		}
+	}
+	rec.Info["history"] = hist
+	rec.Info["config"] = pick(acc, "the registry, accessor mode", "the registry").(string)
+	firstKind := pick(got[0].f != nil, "ok", got[0].o.ErrKind).(string)
+	rec.Tags = append(rec.Tags, "same-string-history:outcome="+firstKind)
+	rec.Key = "same-string-history/" + kind + "/" + firstKind + "/" + c02Skeleton(s, 12)
+	viol := func(format string, args ...interface{}) {
+		if rec.Viol == "" {
+			rec.Viol = fmt.Sprintf(format, args...) + fmt.Sprintf(" [path %q; history: %s]", clip(s, 300), strings.Join(hist, " ; "))
+			rec.Class = "same-string-history"
+		}
+	}
+	for k, g := range got {
+		gk := pick(g.f != nil, "ok", g.o.ErrKind).(string)
+		if g.f == nil && !c02IsParseErr(g.o.ErrKind) {
+			viol("Parse #%d: %s", k+1, clip(g.o.Detail(), 300))
+		}
+		if want != "" && gk != want {
+			viol("Parse #%d of the path must be %s by construction, got %s", k+1, pick(want == "ok", "accepted", "rejected with error kind `"+want+"`"), show(g.f, g.o))
+		}
+		if k > 0 && ((g.f != nil) != (got[0].f != nil) || g.o.ErrKind != got[0].o.ErrKind || g.o.Msg != got[0].o.Msg) {
+			viol("Parse #%d of the same string under the same Config gives %s, Parse #1 gave %s", k+1, show(g.f, g.o), show(got[0].f, got[0].o))
+		}
+	}
 	return rec
 }
